@@ -38,13 +38,21 @@ type lossHist struct {
 	haveNewest bool
 	restarted  bool // a restart happened since the last GetStats
 	strayed    bool // a single packet more than 256 old was delivered (stray stream)
-	lastESeqno uint32
-	haveESeqno bool
-	strict     bool // monitors that assume BitmapGet is sampled as readLoop does
-	stores     int
-	nacks      int
-	lastNack   []uint16 // numbers denoted by the most recent NACK of readloop
-	sincePrune int
+	// F20 at its boundary, in any stream: a packet exactly 256 behind the newest
+	// one became the window start (Store returned it as bitmap.first), which
+	// happens when bitmap.first = newest+1 (after a duplicate of the newest
+	// packet).  Failures about numbers up to limitNewest are then attributed
+	// to F20 until the stream has moved 64 numbers on.
+	limitStray  bool
+	limitNewest uint16
+	f20Reported bool
+	lastESeqno  uint32
+	haveESeqno  bool
+	strict      bool // monitors that assume BitmapGet is sampled as readLoop does
+	stores      int
+	nacks       int
+	lastNack    []uint16 // numbers denoted by the most recent NACK of readloop
+	sincePrune  int
 }
 
 func newLossHist(t *tr.Trace, r *tr.Rand, stream string, capacity int) *lossHist {
@@ -56,7 +64,15 @@ func newLossHist(t *tr.Trace, r *tr.Rand, stream string, capacity int) *lossHist
 
 // noteStore is the monitors' own reading of an arrival: a packet behind the
 // newest one by more than 256 is a restart.
-func (h *lossHist) noteStore(seq uint16) {
+func (h *lossHist) noteStore(seq uint16, first uint16) {
+	if h.haveNewest && h.newest-seq == 0x100 && first == seq {
+		h.limitStray = true
+		h.limitNewest = h.newest
+		h.t.Note("f20-at-the-limit")
+	}
+	if h.limitStray && int16(seq-h.limitNewest) > 64 {
+		h.limitStray = false
+	}
 	h.stores++
 	h.everRecv[seq] = true
 	jumped := false
@@ -119,12 +135,25 @@ func (h *lossHist) checkNack(next uint16, first, bitmap uint16) []uint16 {
 			continue
 		}
 		h.t.Checked("C06.nack_received")
+		if h.limitStray && int16(s-h.limitNewest) <= 0 {
+			// consequence of the re-base by the stray packet (known finding F20)
+			if (h.recv[s] || h.nacked[s]) && !h.f20Reported {
+				h.f20Reported = true
+				h.t.Fail("C06", "nack_f20_limit", fmt.Sprintf("stray-old-packet (at the limit: exactly 256 behind the newest packet %d, which had been duplicated, so 257 behind bitmap.first): NACK (%d,%#x) from BitmapGet(%d) denotes %d, which arrived or was already requested before the stray packet", h.limitNewest, first, bitmap, next, s))
+			}
+			h.nacked[s] = true
+			continue
+		}
 		if h.recv[s] {
 			h.t.Fail("C06", "nack_received", fmt.Sprintf("NACK (%d,%#x) from BitmapGet(%d) denotes %d, which arrived since the last restart", first, bitmap, next, s))
 		} else if h.strayed && h.everRecv[s] && h.c.Get(s, nil) > 0 {
 			// F20: only in the stream that delivers ONE stray packet and then
 			// continues where it was
-			h.t.Fail("C06", "nack_received", fmt.Sprintf("stray-old-packet: NACK (%d,%#x) from BitmapGet(%d) denotes %d, which arrived before the stray packet and is still in the cache", first, bitmap, next, s))
+			if h.f20Reported {
+				continue
+			}
+			h.f20Reported = true
+			h.t.Fail("C06", "nack_f20", fmt.Sprintf("stray-old-packet: NACK (%d,%#x) from BitmapGet(%d) denotes %d, which arrived before the stray packet and is still in the cache", first, bitmap, next, s))
 		}
 		h.t.Checked("C06.nack_once")
 		if h.nacked[s] {
@@ -138,7 +167,7 @@ func (h *lossHist) checkNack(next uint16, first, bitmap uint16) []uint16 {
 func (h *lossHist) store(seq uint16, kf bool) {
 	first, _ := h.c.Store(seq, 0, kf, false, []byte{0})
 	h.t.Op(fmt.Sprint(first), "store", seq, kf)
-	h.noteStore(seq)
+	h.noteStore(seq, first)
 }
 
 func (h *lossHist) bitmapGet(next uint16) {
@@ -173,7 +202,7 @@ func rlUnnacked(packets uint32) uint16 {
 // Returns the numbers denoted by the NACK that was sent (nil if none).
 func (h *lossHist) readloop(seq uint16, kf bool, rate uint32, ok bool) []uint16 {
 	first, _ := h.c.Store(seq, 0, kf, false, []byte{0})
-	h.noteStore(seq)
+	h.noteStore(seq, first)
 	delta := seq - first
 	if (delta & 0x8000) != 0 {
 		delta = 0
@@ -503,6 +532,27 @@ func strayStream(t *tr.Trace, r *tr.Rand, start uint16, run int, back int, rate 
 	t.Nontrivial(fmt.Sprintf("stray/%d/%d/%d", start, run, back))
 }
 
+// limitStream: F20 at its boundary (corpus): in-order run, the newest packet
+// duplicated (bitmap.first becomes newest+1), one packet exactly 256 behind the
+// newest, and the stream continues.
+func limitStream(t *tr.Trace, r *tr.Rand, start uint16, run int, rate uint32) {
+	h := newLossHist(t, r, "f20-limit", 512)
+	seq := start
+	for i := 0; i < run; i++ {
+		h.readloop(seq, i == 0, rate, true)
+		seq++
+	}
+	h.readloop(seq-1, false, rate, true)
+	h.readloop(seq-1-256, false, rate, true)
+	seq++ // one packet lost
+	for i := 0; i < 40; i++ {
+		h.readloop(seq, false, rate, true)
+		seq++
+	}
+	h.stats(true)
+	t.Nontrivial(fmt.Sprintf("limit/%d/%d", start, run))
+}
+
 // steadyHole: in-order arrivals at a fixed rate, single holes far apart; each
 // must be requested exactly at the (packets+1)-th arrival after it.
 func steadyHole(t *tr.Trace, r *tr.Rand, start uint16, rate uint32) {
@@ -580,6 +630,8 @@ func runLoss(t *tr.Trace, r *tr.Rand, n int) {
 	for i := 0; i < 1+n/60; i++ {
 		strayStream(t, r, pickStart(t, r), r.Range(40, 160), r.Range(257, 3000), pickRate(r))
 	}
+	limitStream(t, r, 100, 80, 100)
+	limitStream(t, r, 65300, 300, 700)
 	// corpus: steady streams, every value of packets
 	for _, rate := range []uint32{0, 100, 149, 150, 200, 250, 600, 1199, 1200, 1249, 1250, 100000} {
 		steadyHole(t, r, uint16(65536-int(rate%97)-5), rate)
